@@ -311,7 +311,11 @@ func checkC07(cx *Ctx, r *Report) {
 	if cc := w.Func("provider.checkCertificate$1"); cc != nil {
 		// the comparison that decides goes through a white-space normaliser
 		okN := false
-		for _, b := range cc.Blocks {
+		var ccBlocks []*ssa.BasicBlock
+		for _, g := range cx.privateHelpers(cc) {
+			ccBlocks = append(ccBlocks, g.Blocks...)
+		}
+		for _, b := range ccBlocks {
 			for _, in := range b.Instrs {
 				if bo, ok := in.(*ssa.BinOp); ok && bo.Op == token.EQL {
 					cx1, ok1 := bo.X.(*ssa.Call)
@@ -1234,6 +1238,18 @@ func (cx *Ctx) passesNormalizer(v ssa.Value, depth int) bool {
 	case *ssa.Call:
 		f := calleeOf(x)
 		return f != nil && cx.isWhitespaceNormalizer(f)
+	case *ssa.Parameter:
+		// a parameter of a private helper (`containsCertificate(certs, cert)`): what every call site hands in
+		vs := cx.Fx.throughWrapperParams(x, 0)
+		if len(vs) == 1 && vs[0] == ssa.Value(x) {
+			return false
+		}
+		for _, a := range vs {
+			if !cx.passesNormalizer(a, depth+1) {
+				return false
+			}
+		}
+		return len(vs) > 0
 	case *ssa.Phi:
 		for _, e := range x.Edges {
 			if !cx.passesNormalizer(e, depth+1) {
@@ -1257,6 +1273,13 @@ func (cx *Ctx) passesNormalizer(v ssa.Value, depth int) bool {
 		case *ssa.IndexAddr:
 			// elements of a slice made here: everything stored into its elements
 			base := a.X
+			if prm, isP := base.(*ssa.Parameter); isP {
+				// the slice handed to a private helper
+				vs := cx.Fx.throughWrapperParams(prm, 0)
+				if len(vs) == 1 && vs[0] != ssa.Value(prm) {
+					base = vs[0]
+				}
+			}
 			if _, isMS := base.(*ssa.MakeSlice); !isMS {
 				return false
 			}
